@@ -125,16 +125,14 @@ def check(prop, tier):
                 continue
             ob["_unit"] = r["unit"]
             kid = (prop, r["unit"], ob["name"])
-            if ob["kind"] == "known":
-                # the part of a clause inside a recorded failure class: expected to be refuted
-                if kid in known_ids:
-                    if ob["status"] == "refuted":
-                        known_lines.append(f"KNOWN-FINDING: property={prop} {known_ids[kid]['what']}")
-                        _write_replay(prop, r["unit"], ob)
-                    elif ob["status"] == "proved":
-                        known_lines.append(f"NOTE: known finding no longer reproduces: property={prop} unit={r['unit']} obligation={ob['name']}")
+            if kid in known_ids:
+                # an obligation inside a recorded failure class (known_findings.json): expected to be refuted
+                if ob["status"] == "refuted":
+                    known_lines.append(f"KNOWN-FINDING: property={prop} {known_ids[kid]['what']}")
+                    _write_replay(prop, r["unit"], ob)
                     continue
-                # not listed: treated like any other obligation
+                if ob["status"] == "proved":
+                    known_lines.append(f"NOTE: known finding no longer reproduces: property={prop} unit={r['unit']} obligation={ob['name']}")
             n_obl += 1
             solver_time += ob.get("secs", 0)
             if ob["status"] == "proved":
